@@ -248,6 +248,13 @@ def gen_case(rng):
             case["ops"].append(["r", rng.choice(read or keys)])
         else:
             case["ops"].append(["x", rng.choice(dirs), rng.choice([0, 1])])
+    # a real cache: only for recipes without references to other keys (a cached intermediate result of a query that reads a store key
+    # is served without reading the key again, so whether a dependency is re-materialised is not determined - the cache key does not
+    # cover store content, C04's "fixed store contents")
+    plain = all("-R" not in it["query"] and "/-/" not in it["query"] for *_, it, _k in items_of(case))
+    if plain and rng.random() < 0.6:
+        case["cache"] = "M"
+        case["warm"] = rng.random() < 0.5
     return case
 
 
@@ -263,12 +270,12 @@ def universe(case):
 class Env:
     """one global store with the recipe store of the case mounted; `close()` restores the globals"""
 
-    def __init__(self, case):
+    def __init__(self, case, cache=None):
         import liquer.store as st
-        from liquer.cache import set_cache, NoCache
+        from liquer.cache import set_cache, NoCache, MemoryCache
         from liquer.recipes import RecipeSpecStore
         ensure_vocab()
-        set_cache(NoCache())
+        set_cache(MemoryCache() if (cache or case.get("cache", "N")) == "M" else NoCache())
         self.st = st
         self.case = case
         self.tmp = None
@@ -436,7 +443,7 @@ def direct_table(case):
     """evalQ of the case: every resolved query evaluated directly (fresh environment), serialised for the key's extension"""
     from liquer.query import evaluate
     from liquer.state_types import encode_state_data
-    env = Env(case)
+    env = Env(case, cache="N")
     table, info = [], {}
     try:
         for k, r in list(env.rs.recipes().items()):
@@ -455,6 +462,11 @@ def direct_table(case):
     finally:
         env.close()
     return table, info
+
+
+def strip_log(state_text):
+    parts = state_text.split(" ")
+    return " ".join(x for x in parts if not x.startswith("G"))
 
 
 def run_impl(case):
@@ -478,6 +490,17 @@ def run_impl(case):
             for part in it["query"].split("/"):
                 if part.startswith(("tick-", "dct-", "cnt-", "tock-")):
                     tagkey[part.split("-", 1)[1]] = k
+        if case.get("warm"):
+            # the recipes' queries are evaluated directly first: with a real cache installed the first read is then a cache hit
+            from liquer.query import evaluate
+            for k, r in recs.items():
+                q = r.data.get("query") or ""
+                if "-R" not in q and "/-/" not in q:
+                    try:
+                        evaluate(q)
+                    except Exception:
+                        pass
+            del CALLS[:]
         states, raws, results = [], [], []
         parts, raw = observe(env, univ)
         log = [tagkey.get(t, "?" + t) for t in CALLS]
@@ -493,6 +516,9 @@ def run_impl(case):
             raws.append(raw)
             results.append(rr)
             logs.append(list(log))
+        if case.get("cache", "N") == "M":
+            # with a real cache a read may be served without executing a command: the evaluation log is not an observable there
+            states = [strip_log(x) for x in states]
         res.update(states=states, raws=raws, results=results, logs=logs, univ=univ)
     except Exception:
         import traceback
@@ -597,20 +623,21 @@ def oracle(case, impl):
         new = impl["logs"][step][len(impl["logs"][step - 1]):] if step else impl["logs"][0]
         before = dict(state)
         what = "after %s" % show_ops(case["ops"][:step]) if step else "initially"
-        # ---- evaluation log rules
+        # ---- evaluation log rules (with a real cache the log is not an observable: see run_impl)
+        cached = case.get("cache", "N") == "M"
         if op is None or op[0] != "b":
-            if new:
+            if new and not cached:
                 out.append(("evaluates:" + (op[0] if op else "init"), "%s: recipes %r were evaluated by an operation that is not a read" % (what, new), step))
         else:
             k = op[1]
-            if len(set(new)) != len(new):
+            if len(set(new)) != len(new) and not cached:
                 out.append(("evaluated-twice", "%s: one read evaluated %r" % (what, new), step))
-            for x in new:
+            for x in ([] if cached else new):
                 if before.get(x) == "ready":
                     out.append(("re-evaluated", "%s: %s was evaluated again although it was ready" % (what, x), step))
                 if x not in closure(k, deps):
                     out.append(("evaluated-unrelated", "%s: reading %s evaluated %s" % (what, k, x), step))
-            if k in declared and before[k] == "recipe":
+            if k in declared and before[k] == "recipe" and not cached:
                 runs = not (deps[k] and (deps[k][0] is None or deps[k][0] not in declared))
                 if runs and new.count(k) != 1:
                     out.append(("not-evaluated", "%s: first read of %s evaluated it %d times (log %r)" % (what, k, new.count(k), new), step))
@@ -619,8 +646,8 @@ def oracle(case, impl):
             def sim_read(x, depth=0):
                 if x not in declared or state[x] == "ready" or depth > len(declared):
                     return
-                if state[x] == "error" and x not in new:
-                    return      # not tried again (or tried again without getting as far as its transformation)
+                if state[x] == "error" and (cached or x not in new):
+                    return      # not tried again (or tried again without getting as far as its transformation); it fails again either way
                 for d in deps[x]:
                     sim_read(d, depth + 1)
                 state[x] = "ready" if direct.get(x) is not None else "error"
@@ -667,6 +694,11 @@ def oracle(case, impl):
                 out.append(("has_recipe", "%s: %s has no has_recipe flag (status %r)" % (what, k, m[0]), step))
             if declared[k][3]["kind"] == "d" and (m[1] != decl_title(k) or m[2] != decl_descr(k)):
                 out.append(("title", "%s: %s (status %s) has title %r / description %r, declared %r / %r" % (what, k, m[0], m[1], m[2], decl_title(k), decl_descr(k)), step))
+            # the recipe's name identifies the recipes file, the section, the position and the file name (computed here, not asked from the store)
+            f_, sec_, i_, it_ = declared[k]
+            exp_name = "%s/-Ryaml/%s/%d#%s" % (rjoin(root, f_["key"]), sec_["name"], i_, item_name(it_))
+            if step == 0 and recs[k]["name"] != exp_name:
+                out.append(("recipe-name", "%s: the recipe of %s is named %r, declared as item %d of section %s of %s: %r" % (what, k, recs[k]["name"], i_, sec_["name"], f_["key"], exp_name), step))
             if exp_status in ("ready", "error") and m[0] == exp_status and (m[4] != recs[k]["name"] or m[5] != recs[k]["version"]):
                 out.append(("recipe-dependency", "%s: %s (status %s) records recipe %r version %r, the recipe is %r version %r" % (what, k, m[0], m[4], m[5], recs[k]["name"], recs[k]["version"]), step))
             if exp_status == "recipe" and (m[4] is not None or m[5] is not None):
@@ -825,7 +857,8 @@ def case_sig(case):
     its = ["%s:%s:%s%s" % (sec["name"], it["kind"], it["query"], "".join(">%s=%s" % (f[0], it[f]) for f in ("title", "description", "filename") if it.get(f) is not None))
            for f in case["files"] for sec in f["sections"] for it in sec["items"]]
     ops = ",".join(".".join(str(a) for a in o) for o in case["ops"])
-    return "%s@%s[%s]%s{%s}h=%s" % (case["backend"], case["root"], case["files"][0]["key"], "" if case["setup"] == "pre" else "+post", "|".join(its), ops)
+    return "%s@%s[%s]%s%s{%s}h=%s" % (case["backend"], case["root"], case["files"][0]["key"], "" if case["setup"] == "pre" else "+post",
+                                        ("+MemoryCache" + ("(warm)" if case.get("warm") else "")) if case.get("cache", "N") == "M" else "", "|".join(its), ops)
 
 
 def report(ctx, case, cls, seen):
@@ -872,6 +905,7 @@ def process(ctx, cases, seen, classes, stream_cases, stream_impl, lines):
         ctx.count("sub-store", {"M": "MemoryStore", "F": "FileStore"}[case["backend"]])
         ctx.count("mount", "%s at %r, recipes file at depth %d, %s" % (case["glob"], case["root"], case["files"][0]["key"].count("/"), case["setup"]))
         ctx.count("history length", str(len(case["ops"])))
+        ctx.count("global cache", "NoCache" if case.get("cache", "N") == "N" else "MemoryCache" + (" (queries evaluated directly first)" if case.get("warm") else ""))
         for op in case["ops"]:
             ctx.count("operations", dict(b="get_bytes", m="get_metadata", c="contains", d="is_dir", k="keys", l="listdir", r="remove", x="clean_recipes")[op[0]])
         for *_, it, k in items_of(case):
@@ -900,19 +934,21 @@ def process(ctx, cases, seen, classes, stream_cases, stream_impl, lines):
         for i, s in enumerate(impl["states"]):
             stream_cases.append(("state", case_sig(case) + " after %d ops" % i))
             stream_impl.append(s)
-        lines.append((model_line(case, impl), n + 1))
+        lines.append((model_line(case, impl), n + 1, case.get("cache", "N")))
 
 
 def compare_all(ctx, stream_cases, stream_impl, lines):
-    ans = ctx.driver.ask([l for l, _ in lines])
+    ans = ctx.driver.ask([l[0] for l in lines])
     model = None
     if ans is not None:
         model = []
-        for (l, n), a in zip(lines, ans):
+        for (l, n, cache), a in zip(lines, ans):
             if a == "UNMODELLED":
                 model += ["UNMODELLED"] * n
                 continue
             parts = a.split(";")
+            if cache == "M":
+                parts = parts[:1] + [strip_log(x) for x in parts[1:]]
             model += parts if len(parts) == n else ["BAD-ANSWER " + a[:120]] * n
     for name in ("decl", "state"):
         idx = [i for i, (kind, _) in enumerate(stream_cases) if kind == name]
